@@ -58,7 +58,8 @@ def rule_R04_1(ctx):
             why = str(acp)
             if acp[0][0] == "call":
                 cc = g.call_at(acp[0][1])
-                if cc is not None and (cc.declared or "") == "std::clone::Clone::clone" \
+                if cc is not None and ((cc.declared or "") == "std::clone::Clone::clone"
+                                       or (not cc.is_ptr and cc.res in anchors.chain_cloners(prog))) \
                         and cc.argtys and SCOPESTACK in cc.argtys[0]:
                     src = g.canon_op(cc.args[0])
                     src = tuple(p for p in src if p not in ("&", "*"))
@@ -152,6 +153,12 @@ def rule_R04_2(ctx):
     return r
 
 
+def _chain_ref(prog, t):
+    """`&mut ScopeStack`, a chain carrier, or a shared `&ScopeStack` (a block
+    evaluator that opens its own scope on top of the chain only reads it)."""
+    return anchors.is_chain_ty(prog, t) or (t.startswith("&") and anchors._strip_ty(t) == SCOPESTACK)
+
+
 def block_evaluators(prog):
     """Functions taking (&mut ScopeStack, &Block ...) that return Escape."""
     out = []
@@ -161,7 +168,7 @@ def block_evaluators(prog):
         if "eval::Escape" not in f.locals[0]:
             continue
         tys = [f.locals[i] for i in range(1, f.arg_count + 1)]
-        if any(anchors.is_chain_ty(prog, t) for t in tys) and any(anchors.is_seq_ref(t, "ast::Stmt") for t in tys):
+        if any(_chain_ref(prog, t) for t in tys) and any(anchors.is_seq_ref(t, "ast::Stmt") for t in tys):
             out.append(f)
     return out
 
@@ -201,7 +208,7 @@ def rule_R04_3(ctx):
                 continue
             # is the block argument the stmts of a Func value?
             bi = [i for i, t in enumerate(c.argtys) if anchors.is_seq_ref(t, "ast::Stmt")]
-            si = [i for i, t in enumerate(c.argtys) if anchors.is_chain_ty(prog, t)]
+            si = [i for i, t in enumerate(c.argtys) if _chain_ref(prog, t)]
             if not bi or not si:
                 continue
             ob = pv.origins(f, c.args[bi[0]], ("*",))
@@ -258,6 +265,28 @@ def _mentions_adt_field(origin, adt, other_than=None):
     return False
 
 
+def _lent_by_pusher(prog, clo, param_idx):
+    """If closure `clo` is handed, in its parent, to a callback-style pusher
+    of the scope module whose callback receives the chain as this parameter:
+    (pusher fn, the call)."""
+    parent = prog.fns.get(clo.parent or "")
+    if parent is None or param_idx != 2:
+        return None
+    pushers = {p.path: p for p in anchors.scope_pushers(prog) if anchors.callback_param(p) is not None}
+    for c in parent.calls():
+        if c.is_ptr or c.res not in pushers:
+            continue
+        k = anchors.callback_param(pushers[c.res])
+        if k - 1 >= len(c.args) or not mir.is_place_operand(c.args[k - 1]):
+            continue
+        cpa = parent.canon_op(c.args[k - 1])
+        if cpa and cpa[0][0] == "agg":
+            st = parent.stmts(cpa[0][1])[cpa[0][2]]
+            if st[2][1].get("k") == "closure" and st[2][1].get("def") == clo.path:
+                return pushers[c.res], c
+    return None
+
+
 def rule_R04_4(ctx):
     prog = ctx.prog
     r = RuleResult("R04.4", "every block is evaluated in a fresh scope pushed "
@@ -287,7 +316,20 @@ def rule_R04_4(ctx):
         cp = g.canon_op(anchors.unwrap_carrier(prog, g, c.args[si[0]]))
         cp = tuple(p for p in cp if p not in ("&", "*"))
         ok = False
-        if cp and cp[0][0] == "call":
+        if g.is_closure and cp and cp[0][0] == "arg" and len(cp) == 1:
+            # the chain is the one a callback-style pusher lends to this
+            # closure (`outer.with_new_scope(|scopes| ..)`)
+            lend = _lent_by_pusher(prog, g, cp[0][1])
+            if lend is not None:
+                pf, pc = lend
+                news = [x for x in pf.calls() if (x.res or "").endswith("HashMap::<K, V>::new")
+                        and anchors.scope_map_path(prog) in (x.res_full or "")]
+                others = [x for x in pf.calls() if anchors.scope_map_path(prog) in (x.res_full or "")
+                          and (x.res or "").split("::")[-1] in ("insert", "extend", "entry", "from", "from_iter", "clone")]
+                # one evaluation per lent chain: not inside a loop of the closure
+                ok = len(news) == 1 and not others and not g.in_any_loop(c.bb)
+                cp = "the chain lent by %s" % pf.path
+        if not ok and cp and not isinstance(cp, str) and cp[0][0] == "call":
             cc = g.call_at(cp[0][1])
             if cc is not None and cc.res in {p.path for p in anchors.scope_pushers(prog)} \
                     and g.dominates(cc.bb, c.bb):
